@@ -2048,12 +2048,12 @@ def run(ctx):
         ctx.case(case, set_nontrivial(case), sample=case, cls="set origin=" + case["origin"])
         ctx.classes["set fmt=" + case["fmt"]] += 1
     # 5b. attribute keys spelled like the fixed columns / other members of a Feature
-    for _ in range(ctx.budget(3000, 60000)):
+    for _ in range(ctx.budget(2400, 48000)):
         case = gen_member_case(rng)
         execute(ctx, case)
         ctx.case(case, True, sample=case if rng.random() < 0.05 else None, cls="set member-named keys origin=" + case["origin"])
     # 5c. keep_order features under a dialect that lists the keys in another order
-    for _ in range(ctx.budget(900, 18000)):
+    for _ in range(ctx.budget(700, 14000)):
         case = G.korder_case(rng)
         execute(ctx, case)
         ctx.case(case, True, sample=case if rng.random() < 0.05 else None, cls="korder " + case["route"])
